@@ -1105,24 +1105,24 @@ FINDINGS = {"C09/linear-node-rounding": linear_node_rounding, "C09/clone-loses-s
 
 FACETS = [
     Facet("node_exact", node_case, check_node_exact, setup=_setup,
-          rule="every case: all n nodes of the table are queried", quick=(8, 400), thorough=(16, 4000)),
+          rule="every case: all n nodes of the table are queried", quick=(8, 300), thorough=(16, 4000)),
     Facet("poly_reproduction", poly_case, check_poly, setup=_setup,
           rule="a query strictly between nodes in an edge interval, or odd order, or non-uniform nodes",
-          quick=(12, 550), thorough=(24, 5000)),
+          quick=(12, 400), thorough=(24, 5000)),
     Facet("window_remainder", rem_case, check_remainder, setup=_setup,
-          rule="a query strictly between nodes", quick=(8, 550), thorough=(16, 5000)),
+          rule="a query strictly between nodes", quick=(8, 400), thorough=(16, 5000)),
     Facet("accuracy", acc_case, check_accuracy, setup=_setup,
           rule="every case: first, last and middle interval of a Kepler ephemeris + one drawn query",
           quick=(12, 300), thorough=(24, 2500)),
     Facet("refusal", refusal_case, check_refusal, setup=_setup,
           rule="every case: 2-5 abscissae outside, both ends and 2-5 drawn abscissae inside",
-          quick=(6, 400), thorough=(12, 4000)),
+          quick=(6, 300), thorough=(12, 4000)),
     Facet("session", session_case, check_session, setup=_setup,
           rule="every case: 3-9 operations on one Ephem (queries, order / method changes)",
-          quick=(8, 350), thorough=(16, 3500)),
+          quick=(8, 250), thorough=(16, 3500)),
     Facet("variants", variant_case, check_variant, setup=_setup,
           rule="every case: the same ephemeris under another spelling (labels, container, order type, clone, scribble)",
-          quick=(8, 300), thorough=(16, 3000)),
+          quick=(8, 250), thorough=(16, 3000)),
     Facet("raw_types", raw_case, check_raw, setup=_setup,
           rule="every case: xs / ys / x handed over in another container or dtype",
           quick=(4, 400), thorough=(8, 4000)),
